@@ -205,7 +205,17 @@ def apply_mutator(obj, s, st_, ctx):
         return obj, m
     if m == "delta":
         n = s["n"] if pd < 3 else min(s["n"], 4)
-        obj.delta = 1.0 / n
+        if pd > 1 and s["ints"][0] % 2:
+            # a different density per direction; what was set must be what is reported
+            ns = [n + ((s["ints"][1 + k] + k) % 3) for k in range(pd)]
+            obj.delta = tuple(1.0 / x for x in ns)
+            ctx.check(_deep_eq(list(obj.delta), [1.0 / x for x in ns]), "delta-readback", "delta set to %r reads back as %r" % ([1.0 / x for x in ns], list(obj.delta)))
+            ctx.check(list(obj.sample_size) == ns, "delta-readback", "delta = 1/%r gives sample_size %r" % (ns, list(obj.sample_size)))
+            for k, nm in enumerate(("u", "v", "w")[:pd]):
+                ctx.check(_num_eq(getattr(obj, "delta_" + nm), 1.0 / ns[k]) and getattr(obj, "sample_size_" + nm) == ns[k], "delta-readback",
+                          "delta_%s / sample_size_%s = %r / %r after delta = 1/%r" % (nm, nm, getattr(obj, "delta_" + nm), getattr(obj, "sample_size_" + nm), ns))
+        else:
+            obj.delta = 1.0 / n
         return obj, m
     if m == "sample":
         if not norm:
